@@ -498,6 +498,30 @@ def _replay_task(check_id, plan, wfd):
         out.write(json.dumps({'res': res}, default=repr) + '\n')
 
 
+def _single_task(check_id, gen, wfd):
+    _worker_setup()
+    check = load_check(check_id)
+    res = fork_execute(check, None, gen=gen)
+    with os.fdopen(wfd, 'w') as out:
+        out.write(json.dumps({'res': res}, default=repr) + '\n')
+
+
+def single(check_id, tier, seed, index, out=sys.stdout):
+    """debug aid: execute run <index> of the batch (tier, seed) alone and print what it reported"""
+    pid, rfd = _spawn(_single_task, check_id, (seed, tier, index))
+    recs, _ = _collect([(pid, rfd)], time.monotonic() + RUN_WALL_TIMEOUT + 60)
+    res = recs[0]['res'] if recs else {'harness_error': 'NO-RESULT'}
+    if res.get('harness_error'):
+        print(f"HARNESS-ERROR property={check_id} kind={res['harness_error']}\n{res.get('detail')}\n"
+              + '\n'.join(res.get('ring') or []), file=out)
+        return 2
+    for v in res.get('violations') or []:
+        print(f"  clause={v.get('clause')} sig={v.get('sig')}\n  detail={str(v.get('detail'))[:3000]}", file=out)
+    print(f"run {index}: digest={res.get('digest')} steps={res.get('steps')} virtual_s={res.get('virtual_s')} "
+          f"probes={res.get('probes')} faults={res.get('fault_counts')} known={res.get('known')}", file=out)
+    return 1 if res.get('violations') else 0
+
+
 def replay(check_id, path, out=sys.stdout):
     with open(path) as f:
         rp = json.load(f)
